@@ -515,6 +515,7 @@ func TestC16(t *testing.T) {
 				}
 			}
 		}
+		ev.Journal("C16", c)
 		fl, herr := checkC16(c, rec)
 		if herr != "" || isHarnessFailure(fl) || (fl != nil && strings.Contains(fl.Msg, "HARNESS:")) {
 			if c.Feature == "" {
